@@ -234,7 +234,21 @@ func c04Cmp(r *rt.Rand, constant bool) *gen.Node {
 var cmpNOps = []string{"=", "!=", ">", ">=", "<", "<="}
 
 func c04Random(r *rt.Rand) (*gen.Node, string) {
-	switch r.Intn(9) {
+	switch r.Intn(10) {
+	case 9: // chains of divisions (and a product before them) by constants whose product leaves int64
+		x := c04Leaves[9+r.Intn(3)] // row leaf
+		ks := []*gen.Node{gen.Int(4294967296), gen.Int(3037000500), gen.Int(2), gen.Int(3), gen.Int(7), gen.Float("2.0"), gen.Float("0.5"), gen.Int(65536)}
+		t := x
+		if r.Chance(1, 3) {
+			t = gen.Bin("*", t, ks[r.Intn(len(ks))])
+		}
+		for i, n := 0, r.Range(2, 3); i < n; i++ {
+			t = gen.Bin("/", t, ks[r.Intn(len(ks))])
+		}
+		if r.Chance(1, 3) {
+			t = gen.Bin(cmpNOps[r.Intn(6)], t, c04Leaves[r.Intn(9)])
+		}
+		return t, "divchain"
 	case 8: // chains that mix operators, with constant sub-expressions still unfolded as operands
 		ops := []string{"+", "*", "-", "/"}
 		x := c04Leaves[9+r.Intn(3)] // row leaf
